@@ -95,6 +95,21 @@ def _val_tok(x, micro: bool = False) -> str:
     return scal(x)
 
 
+def _gps_vals(j1: Fraction, j2: Fraction, cols: int):
+    """the value(s) of the formats gps_seconds (1 column) / gps_ws (week, seconds, day) as the exact function of jd1, jd2.
+    The stored float values of these formats are NOT compared: `TimeBase.__new__` stores from_jds(to_jds(value)), which
+    moves a value of 1.2e9 s by an ulp (0.24 us) at every insert - a drift that accumulates over a history - while
+    jd1 / jd2, which are compared exactly, stay; the order of the stored values is that of these exact ones as long as
+    epochs are microseconds apart"""
+    days = j1 - Fraction(4888489, 2) + j2          # since 1980-01-06 (JD 2444244.5)
+    if cols == 1:
+        return ["n" + rs(days * 86400)]
+    week = days.numerator // (7 * days.denominator)
+    sec = (days - 7 * week) * 86400
+    day = sec.numerator // (86400 * sec.denominator)
+    return ["n" + rs(Fraction(week)), "n" + rs(sec), "n" + rs(Fraction(day))]
+
+
 def time_rows(kind: str, j1, j2, vals, n: int, micro: bool = False):
     """(ndim, cols, rows) of a time / time delta with its values: a row is jd1, jd2, then the value(s) in the format of
     the array; an empty epoch (datetime.min) is all-NaN"""
@@ -112,7 +127,10 @@ def time_rows(kind: str, j1, j2, vals, n: int, micro: bool = False):
         if kind == "time" and abs(frac(a) + frac(b) - EMPTY_TIME_JD) < 2:
             rows.append(["nan"] * (2 + cols))
         else:
-            vs = [_val_tok(v[i], micro)] if v.ndim == 1 else [_val_tok(x, micro) for x in v[i]]
+            if micro:
+                vs = _gps_vals(frac(a), frac(b), cols)
+            else:
+                vs = [_val_tok(v[i])] if v.ndim == 1 else [_val_tok(x) for x in v[i]]
             rows.append([scal(a), scal(b)] + vs)
     return ndim, cols, rows
 
